@@ -309,6 +309,43 @@ def run(ck, facts):
             kind = "uint"
         ck.expect(ta == (kind, bits), "R4", key, "%s %s" % (r[1], ta), "%s elements are accessed through %s %s but the wasm32 type %s is (%s, %d)" % (prim, r[1], ta, rust_ty, kind, bits), C.loc(f, r[2]))
 
+    # list views: the tag handed to DiplomatBuf.slice / DiplomatSlicePrimitive names the element type
+    LIST_VIEW = {"boolean": ("uint", 8), "u8": ("uint", 8), "i8": ("int", 8), "u16": ("uint", 16), "i16": ("int", 16), "u32": ("uint", 32), "i32": ("int", 32),
+                 "u64": ("uint", 64), "i64": ("int", 64), "f32": ("float", 32), "f64": ("float", 64), "u128": ("uint", 128), "i128": ("int", 128)}
+    f = tool.fn("js::formatter::JSFormatter::fmt_primitive_list_view")
+    tab, _ = T.prim_table(f, adts)
+    for prim in T.ALL_PRIMS:
+        if prim.startswith("Int128"):
+            continue
+        r = tab.get(prim)
+        key = "fmt_primitive_list_view/" + prim
+        if not r or r[0] != "str":
+            ck.bad("R4", key, "no constant list-view tag: %s" % (r[:2] if r else None,), C.loc(f))
+            continue
+        lv = LIST_VIEW.get(r[1])
+        rust_ty = T._PRIM_MAP[prim]
+        bits = wasm["P_" + rust_ty]["size"] * 8
+        kind = "float" if rust_ty[0] == "f" else ("int" if rust_ty[0] == "i" else "uint")
+        if rust_ty == "bool":
+            kind = "uint"
+        ck.expect(lv == (kind, bits), "R4", key, "%s %s" % (r[1], lv), "slices of %s are copied to / read from wasm memory as \"%s\" %s elements but the wasm32 type %s is (%s, %d): "
+                  "wrong element width (allocation too small, values garbled)" % (prim, r[1], lv, rust_ty, kind, bits), C.loc(f, r[2]))
+    # the runtime's element sizes / typed arrays for those tags
+    rtm0 = C.read_repo("tool/templates/js/runtime.mjs")
+    msz = re.search(r"const\s+elementSize\s*=\s*(.*?);", rtm0, re.S)
+    if not msz:
+        ck.bad("R4", "runtime.mjs/elementSize", "elementSize table of DiplomatBuf.slice not found", "tool/templates/js/runtime.mjs")
+    else:
+        expr = msz.group(1)
+        sizes = {}
+        for grp, val in re.findall(r"((?:rustType\s*===\s*\"\w+\"\s*(?:\|\|)?\s*)+)\?\s*(\d+)\s*:", expr):
+            for tag in re.findall(r'"(\w+)"', grp):
+                sizes[tag] = int(val)
+        mdef = re.search(r":\s*(\d+)\s*$", expr.strip())
+        default = int(mdef.group(1)) if mdef else None
+        badsz = {t_: (sizes.get(t_, default), LIST_VIEW[t_][1] // 8) for t_ in LIST_VIEW if t_ not in ("u128", "i128") and sizes.get(t_, default) != LIST_VIEW[t_][1] // 8}
+        ck.expect(not badsz, "R4", "runtime.mjs/elementSize", "element sizes per tag agree with the tag", "DiplomatBuf.slice element sizes disagree with the tag's width: %s (got, expected)" % badsz, "tool/templates/js/runtime.mjs")
+
     # ---------------- R5 runtime.mjs
     rtm = C.read_repo("tool/templates/js/runtime.mjs")
 
